@@ -105,7 +105,7 @@ def exec_case(case):
     events = []
     for ev in case["events"]:
         op = ev["op"]
-        e = dict((kk, ev[kk]) for kk in ev if kk in ("op", "i", "n", "vt", "va", "v", "x"))
+        e = dict((kk, ev[kk]) for kk in ev if kk in ("op", "i", "j", "n", "vt", "va", "v", "x"))
         e.setdefault("exc", "")
         c = box["c"]
         if op == "init":
@@ -123,6 +123,12 @@ def exec_case(case):
             if not (0 <= ev["i"] < len(c)):
                 dv = pyval(at, 0 if k == 1 else k, tdef)
                 e["est"] = _exc(lambda: d.__setitem__(ev["i"], dv))
+        elif op == "copy_entry":
+            def cp():
+                for name in ("s", "d"):
+                    a_ = c.get_attribute(name)
+                    a_[ev["j"]] = a_[ev["i"]]
+            e["exc"] = _exc(cp)
         elif op == "inplace":
             def poke():
                 x = pyatom("complex" if at == "complex" else "float", ev["x"])
@@ -178,6 +184,11 @@ def _random_case(rng, i):
             evs.append({"op": "probe", "i": rng.randint(-2, size + 2)})
         elif r < 0.6 and size > 0 and k > 1:
             evs.append({"op": "inplace", "i": rng.randrange(size), "x": "9j" if at == "complex" else "9.5"})
+            if size >= 2 and rng.random() < 0.5:
+                # a value read from one entry is written to another, then the first is updated in place: the second must not follow
+                src_i, dst_j = rng.sample(range(size), 2)
+                evs.append({"op": "copy_entry", "i": src_i, "j": dst_j})
+                evs.append({"op": "inplace", "i": src_i, "x": "7j" if at == "complex" else "7.25"})
         elif r < 0.75 and size < 12:
             n = rng.randint(1, 3)
             op = rng.choice(["append", "extend_list", "extend_container"])
